@@ -262,6 +262,11 @@ func init() {
 		// Requests run nested at scheduling points of one another (never truly in parallel): a nested request that
 		// needs a lock its enclosing request holds would wait for it, so that schedule does not exist - the path ends.
 		mu := args[0].(*Value)
+		if op := fn.Name(); p.lockCb != nil && !p.inLockCb && (op == "Lock" || op == "RLock") {
+			p.inLockCb = true
+			p.call(fr, p.lockCb, []Value{op})
+			p.inLockCb = false
+		}
 		if p.locks == nil {
 			p.locks = map[*Value]*lockState{}
 		}
